@@ -264,6 +264,73 @@ def check_preview_vs_execute(case, stats, add):
     return lines
 
 
+def check_other_database(case, stats, add):
+    """The same comparison for `--database other` while the default
+    database is already at the target version: the preview must be computed
+    from the stored signature of the database it is asked about."""
+    name, v0, steps, i, k = case
+    hist = EB.History(v0, steps)
+    hist.install(i)
+    for al in ('default', 'other'):
+        B.fresh_db(al)
+        B.reset_globals()
+        if not EB.upgrade('D2', db=al).ok:
+            stats['skipped'] += 1
+            return
+    from vf import rows as RW
+    RW.populate(hist.specs[i], 'R2', 'other')
+    hist.install(k)
+    B.reset_globals()
+    if not EB.upgrade('D2', db='default').ok:
+        stats['skipped'] += 1
+        return
+    image = B.snapshot('other')
+    B.reset_globals()
+    res = D.d3(execute=False, compile_sql=True, db='other')
+    replay = {'v0': v0, 'steps': steps, 'i': i, 'k': k, 'db': 'other'}
+    desc = c04.abstract_jumps(hist, [i, k])
+    if not res.ok:
+        stats['preview_rejected'] += 1
+        return
+    lines = preview_lines(res.stdout)
+    B.restore(image, 'other')
+    B.reset_globals()
+    seq = [0]
+    tracer = O.Tracer('other', seq=seq)
+    with O.SignalLog(seq) as log:
+        res2 = D.d3(tracer=tracer, db='other')
+    stats['executions'] += 1
+    if not res2.ok:
+        stats['execute_failed'] += 1
+        return
+    spans = []
+    evs = log.events
+    for idx, (sq, nm, p) in enumerate(evs):
+        if nm == 'applying_evolution':
+            ends = [e[0] for e in evs[idx + 1:] if e[1] == 'applied_evolution']
+            spans.append((sq, min(ends) if ends else 10 ** 9))
+    executed = []
+    for (sq, sql, params, f) in tracer.statements:
+        if not any(a < sq < b for a, b in spans):
+            continue
+        if not O.is_effect(sql) or acceptor.is_bookkeeping(sql):
+            continue
+        executed.append(O.render(sql, params).strip())
+    norm = lambda l: l.strip().rstrip(';')
+    a = [norm(l) for l in lines]
+    b = [norm(l) for l in executed]
+    stats['compared'] += 1
+    stats['other_database_comparisons'] = stats.get(
+        'other_database_comparisons', 0) + 1
+    if a != b:
+        kind = 'order-differs' if sorted(a) == sorted(b) else \
+            'statements-differ'
+        add('C14|preview-differs-from-execution|%s|%s|database=other' % (
+            kind, desc), replay, {'preview': a[:8], 'executed': b[:8]})
+    for al in ('default', 'other'):
+        B.fresh_db(al)
+
+
 def order_exploration(case, stats, add, pairs):
     name, v0, steps, i, k = case
     hist, image = prepare(v0, steps, i)
@@ -343,6 +410,9 @@ def work(task):
     if mode == 'digest':
         return digest_case(case)
     check_preview_vs_execute(case, stats, add)
+    if case[0].startswith(('meta-', 'raw-sql', 'two-app-with-sql')) or \
+            case[0].endswith(('#0', '#16', '#48', '#96', '#160')):
+        check_other_database(case, stats, add)
     order_exploration(case, stats, add, pairs)
     stats['samples'].append({'case': case[0], 'from': case[3],
                              'to': case[4]})
@@ -467,8 +537,11 @@ def replay(path):
             return 1
         print('NOT-REPRODUCED')
         return 0
-    check_preview_vs_execute(case, stats, add)
-    order_exploration(case, stats, add, True)
+    if r.get('db') == 'other':
+        check_other_database(case, stats, add)
+    else:
+        check_preview_vs_execute(case, stats, add)
+        order_exploration(case, stats, add, True)
     for fp, d in found.items():
         print('  %s %s' % (fp, str(d)[:600]))
     if doc['fingerprint'] in found:
